@@ -124,6 +124,23 @@ pub struct Shared {
     pub child_fail: AtomicU64,
     /// paths abandoned because a solver call ignored its own time limit (see `watchdog`)
     pub watchdog: AtomicU64,
+    /// CLOCK_MONOTONIC seconds after which the remaining paths of the current skeleton are given up (counted in `capped`)
+    pub deadline_s: AtomicU64,
+}
+
+fn mono_s() -> u64 {
+    let mut ts = libc::timespec { tv_sec: 0, tv_nsec: 0 };
+    unsafe { libc::clock_gettime(libc::CLOCK_MONOTONIC, &mut ts) };
+    ts.tv_sec as u64
+}
+
+/// ends the path (counted as capped) once the skeleton's time budget SYMX_SKELETON_S is used up
+fn enforce_deadline(shr: &Shared) {
+    let d = shr.deadline_s.load(AO::SeqCst);
+    if d != 0 && mono_s() > d {
+        shr.capped.fetch_add(1, AO::SeqCst);
+        unsafe { libc::_exit(0) }
+    }
 }
 
 static WD_SHARED: std::sync::atomic::AtomicPtr<Shared> = std::sync::atomic::AtomicPtr::new(std::ptr::null_mut());
@@ -521,11 +538,13 @@ pub mod sym {
         ] {
             a.store(0, AO::SeqCst);
         }
+        s.deadline_s.store(mono_s() + env_u32("SYMX_SKELETON_S", 300) as u64, AO::SeqCst);
     }
 }
 
 fn timed_check(s: &St, assumption: &Bool) -> SatResult {
     let t0 = std::time::Instant::now();
+    enforce_deadline(unsafe { &*s.shared });
     watchdog((3 * s.decide_ms / 1000).max(15));
     let r = s.solver.check_assumptions(&[assumption.clone()]);
     watchdog(0);
